@@ -27,7 +27,7 @@ fn world(b_rejects: bool) -> World {
     let (pk, _, a) = ledger.new_allocated_account();
     let (pkb, _, b) = ledger.new_allocated_account();
     let (pkc, _, c) = ledger.new_allocated_account();
-    let f = ledger.create_fungible_resource(dec!(1000000), DIVISIBILITY_MAXIMUM, a);
+    let f = ledger.create_freely_mintable_and_burnable_fungible_resource(OwnerRole::None, Some(dec!(1000000)), DIVISIBILITY_MAXIMUM, a);
     let n = ledger.create_non_fungible_resource(a);
     if b_rejects {
         let m = ManifestBuilder::new()
@@ -169,6 +169,14 @@ fn build(w: &World, steps: &[J]) -> TransactionManifestV2 {
             "withdraw" => mb.withdraw_from_account(w.accounts[0], res.unwrap(), d(&s["amt"])),
             "withdraw_nf" => mb.withdraw_non_fungibles_from_account(w.accounts[0], w.res[1], ids(&s["ids"])),
             "free" => mb.get_free_xrd_from_faucet(),
+            "lock_fee_withdraw" => mb.lock_fee_and_withdraw(w.accounts[0], d(&s["fee"]), res.unwrap(), d(&s["amt"])),
+            "lock_fee_withdraw_nf" => mb.lock_fee_and_withdraw_non_fungibles(w.accounts[0], d(&s["fee"]), w.res[1], ids(&s["ids"])),
+            "lock_fee" => mb.lock_fee(w.accounts[0], d(&s["fee"])),
+            "lock_contingent_fee" => mb.lock_contingent_fee(w.accounts[0], d(&s["fee"])),
+            "burn_in_account" => mb.burn_in_account(w.accounts[0], res.unwrap(), d(&s["amt"])),
+            "burn_nf_in_account" => mb.burn_non_fungibles_in_account(w.accounts[0], w.res[1], ids(&s["ids"])),
+            "proof_of_amount" => mb.create_proof_from_account_of_amount(w.accounts[0], res.unwrap(), d(&s["amt"])),
+            "proof_of_nf" => mb.create_proof_from_account_of_non_fungibles(w.accounts[0], w.res[1], ids(&s["ids"])),
             "take_all" => mb.take_all_from_worktop(res.unwrap(), bname),
             "take" => mb.take_from_worktop(res.unwrap(), d(&s["amt"]), bname),
             "take_nf" => mb.take_non_fungibles_from_worktop(w.res[1], ids(&s["ids"]), bname),
@@ -264,7 +272,7 @@ fn balances(w: &mut World) -> Vec<Vec<Decimal>> {
 }
 
 /// executes; None unless the transaction committed successfully
-fn execute(w: &mut World, manifest: TransactionManifestV2) -> Result<J, String> {
+fn execute(w: &mut World, manifest: TransactionManifestV2, burned: [i64; 3]) -> Result<J, String> {
     let before = balances(w);
     let nonce = w.ledger.next_transaction_nonce();
     let pks = w.pks;
@@ -316,9 +324,18 @@ fn execute(w: &mut World, manifest: TransactionManifestV2) -> Result<J, String> 
     for ai in 0..3 {
         let mut net = Map::new();
         for ri in 0..3 {
-            net.insert(RES[ri].to_string(), json!(q(after[ai][ri] - before[ai][ri]).ok_or("net amount not representable")?));
+            // (an account that pays fees has an XRD change that is no multiple of 1/4: recorded as a sentinel, TraceMovements skips it for the fee payer only)
+            net.insert(RES[ri].to_string(), json!(q(after[ai][ri] - before[ai][ri]).unwrap_or(999_999_999)));
         }
-        act.insert(ACC[ai].to_string(), json!({"dep": dep[ai], "wd": wd[ai], "net": net}));
+        // what left the account, from the vault balances: received - net change (- what the manifest burned in place);
+        // lock_fee_and_withdraw* emit no WithdrawEvent, so the events alone would miss those withdrawals
+        let mut wda = Map::new();
+        for ri in 0..3 {
+            let received = if ri == 1 { 4 * dep[ai][RES[ri]]["ids"].as_array().unwrap().len() as i64 } else { dep[ai][RES[ri]]["a"].as_i64().unwrap() };
+            let n = net[RES[ri]].as_i64().unwrap();
+            wda.insert(RES[ri].to_string(), json!(if n == 999_999_999 { n } else { received - n - if ai == 0 { burned[ri] } else { 0 } }));
+        }
+        act.insert(ACC[ai].to_string(), json!({"dep": dep[ai], "wd": wd[ai], "net": net, "wda": wda}));
     }
     Ok(json!(act))
 }
@@ -382,6 +399,36 @@ fn scenarios() -> Vec<(String, Vec<J>)> {
         v.push((format!("{}:bucket", name), vec![source(0), json!({"op": "take_all", "res": 0, "b": "b0"}), json!({"op": "assert_bucket", "b": "b0", "amt": a}), json!({"op": "deposit", "acct": 1, "b": "b0"}), home.clone()]));
     }
     v.push(("assert-only".into(), vec![source(0), source(2), json!({"op": "assert_only_all", "res": 0, "amt": 0.5}), json!({"op": "deposit_worktop", "acct": 1}), home.clone()]));
+    // every account method the analyser types, all amounts pairwise different (fee 3, amount 5, contingent 7, proof 1.5, burn 0.5),
+    // each source followed by every kind of sink so that a swapped / dropped field shows in some account's bounds
+    let typed_sources: Vec<(&str, Vec<J>, usize)> = vec![
+        ("withdraw", vec![json!({"op": "withdraw", "res": 0, "amt": 5.0})], 0),
+        ("withdraw-xrd", vec![json!({"op": "withdraw", "res": 2, "amt": 5.0})], 2),
+        ("lock-fee-withdraw", vec![json!({"op": "lock_fee_withdraw", "fee": 3.0, "res": 0, "amt": 5.0})], 0),
+        ("lock-fee-withdraw-xrd", vec![json!({"op": "lock_fee_withdraw", "fee": 3.0, "res": 2, "amt": 5.0})], 2),
+        ("lock-fee-withdraw-fee-larger", vec![json!({"op": "lock_fee_withdraw", "fee": 7.0, "res": 0, "amt": 0.5})], 0),
+        ("withdraw-nf", vec![json!({"op": "withdraw_nf", "ids": [1, 3]})], 1),
+        ("lock-fee-withdraw-nf", vec![json!({"op": "lock_fee_withdraw_nf", "fee": 3.0, "ids": [2, 3]})], 1),
+        ("lock-fee-then-withdraw", vec![json!({"op": "lock_fee", "fee": 3.0}), json!({"op": "withdraw", "res": 2, "amt": 5.0})], 2),
+        ("contingent-fee-then-withdraw", vec![json!({"op": "lock_contingent_fee", "fee": 7.0}), json!({"op": "withdraw", "res": 0, "amt": 5.0})], 0),
+        ("proof-then-withdraw", vec![json!({"op": "proof_of_amount", "res": 0, "amt": 1.5}), json!({"op": "withdraw", "res": 0, "amt": 5.0})], 0),
+        ("proof-nf-then-withdraw-nf", vec![json!({"op": "proof_of_nf", "ids": [1]}), json!({"op": "withdraw_nf", "ids": [2]})], 1),
+        ("burn-then-withdraw", vec![json!({"op": "burn_in_account", "res": 0, "amt": 0.5}), json!({"op": "withdraw", "res": 0, "amt": 5.0})], 0),
+        ("two-withdrawals", vec![json!({"op": "withdraw", "res": 0, "amt": 5.0}), json!({"op": "lock_fee_withdraw", "fee": 3.0, "res": 0, "amt": 1.5})], 0),
+    ];
+    for (name, src, r) in typed_sources.iter() {
+        for how in ["deposit", "try_refund", "batch", "worktop", "take-part"] {
+            let mut st = src.clone();
+            match how {
+                "worktop" => st.extend(sink("worktop", 2)),
+                "take-part" if *r != 1 => { st.push(json!({"op": "take", "res": r, "amt": 2.0, "b": "b0"})); st.extend(sink("deposit", 1)); }
+                "take-part" => { st.push(json!({"op": "take_nf", "ids": [2], "b": "b0"})); st.extend(sink("deposit", 1)); }
+                _ => { st.push(json!({"op": "take_all", "res": r, "b": "b0"})); st.extend(sink(how, 1)); }
+            }
+            st.push(home.clone());
+            v.push((format!("typed:{}:{}", name, how), st));
+        }
+    }
     // take, return, take again; two buckets into one batch
     v.push(("return-retake".into(), vec![source(0), json!({"op": "take", "res": 0, "amt": 1.5, "b": "b0"}), json!({"op": "return", "b": "b0"}), json!({"op": "take_all", "res": 0, "b": "b1"}), json!({"op": "deposit", "acct": 1, "b": "b1"}), home.clone()]));
     v.push(("batch-two".into(), vec![source(0), source(2), json!({"op": "take_all", "res": 0, "b": "b0"}), json!({"op": "take", "res": 2, "amt": 0.5, "b": "b1"}), json!({"op": "batch", "acct": 2, "bs": ["b0", "b1"]}), home.clone()]));
@@ -399,7 +446,7 @@ fn record(args: &Args) {
     let nscen = scen.len() as u64;
     for k in 0..(nscen + n) {
         let is_scenario = k < nscen;
-        let uses_nf = is_scenario && scen[k as usize].1.iter().any(|s| s["op"] == "withdraw_nf");
+        let uses_nf = is_scenario && scen[k as usize].1.iter().any(|s| s["op"].as_str().unwrap().contains("nf"));
         if (k > nscen && (k - nscen) % 40 == 0) || uses_nf || k == nscen {
             worlds = [world(false), world(true)]; // fresh balances (the non-fungibles wander off)
         }
@@ -418,10 +465,15 @@ fn record(args: &Args) {
         for (si, w) in worlds.iter_mut().enumerate() {
             // same accounts / resources in both worlds (same creation order, deterministic addresses)
             let manifest = build(w, &steps);
-            match execute(w, manifest) {
+            let mut burned = [0i64; 3];
+            for st in steps.iter().filter(|st| st["op"] == "burn_in_account") {
+                burned[st["res"].as_u64().unwrap() as usize] += (st["amt"].as_f64().unwrap() * 4.0) as i64;
+            }
+            match execute(w, manifest, burned) {
                 Ok(act) => {
                     *stats.entry("run:success".into()).or_insert(0) += 1;
-                    out.emit(&json!({"k": "run", "scenario": scenario_name, "state": si, "steps": steps, "pred": pred, "act": act}));
+                    let fee_from_account = steps.iter().any(|s| s["op"].as_str().unwrap().starts_with("lock_"));
+                    out.emit(&json!({"k": "run", "scenario": scenario_name, "state": si, "steps": steps, "pred": pred, "act": act, "fee_from_account": fee_from_account}));
                 }
                 Err(e) => {
                     *stats.entry(format!("run:{}", e.split(':').next().unwrap())).or_insert(0) += 1;
